@@ -69,6 +69,8 @@ def PJ_eq : List String := [
   "..return NotImplemented",
   "if self.__curve != other.curve()",
   ".return False",
+  "if not y1 or not z1 or (not y2) or (not z2)",
+  ".return (not y1 or not z1) and (not y2 or not z2)",
   "p = self.__curve.p()",
   "zz1 = z1 * z1 % p",
   "zz2 = z2 * z2 % p",
